@@ -427,7 +427,10 @@ class Gen:
         elif form == "set":
             e = "<< %s for %s in %s%s%s >>" % (val, x, what, it, cond)
         elif form == "map":
-            e = "<<< %s => %s for %s in %s%s%s >>>" % (x if kind != "list" else "length(%s)" % x, val, x, what, it, cond)
+            key = x if kind != "list" else "length(%s)" % x
+            if kind == "int" and r.random() < 0.5:
+                key = r.choice(["%s %% 2" % x, "%s %% 3" % x, "1", "%s - %s" % (x, x)])      # several elements give the same key: the last one wins, as in the loop
+            e = "<<< %s => %s for %s in %s%s%s >>>" % (key, val, x, what, it, cond)
         else:
             # the second generator has its own collection kind and keys/values/entries qualifier
             it2, y, kind2, what2 = self.iterable(ctx)
